@@ -12,5 +12,6 @@ CONSTANTS
   SOLVER = {}
   SCALES = {"unit", "small"}
   SYSCLS = {}
+  OPTS = {"verbose", "nswp40", "kick1", "iters"}
 INVARIANT WellTyped
 CHECK_DEADLOCK FALSE
